@@ -229,9 +229,9 @@ PROPS = {
              "R-CUSTOM-SECTIONS.",
              "byte equality of the emitted sections over edit sequences.",
              "who-may-write + field pairing"),
-    "C29": P([IDSPACE, SCRATCH, FULLIT, EM((), names=True), ("misc", "name_dispatch", {}), ("fields", "name_pairing", {}), IMPORD],
+    "C29": P([IDSPACE, SCRATCH, FULLIT, EM((), names=True), ("misc", "name_dispatch", {}), ("fields", "name_pairing", {}), ("fields", "name_index_selects", {}), IMPORD],
              "necessary: index-keyed name maps must not be emitted with pre-edit indices; naming dispatches on kind; each name kind re-emitted from where it was stored",
-             "R-EMIT-MAPPED(names), R-NAME-DISPATCH, R-NAME-PAIRING, R-IMPORT-ORDINAL.",
+             "R-EMIT-MAPPED(names), R-NAME-DISPATCH, R-NAME-PAIRING, R-NAME-INDEX, R-IMPORT-ORDINAL.",
              "name equality over histories.",
              "sink provenance"),
     "C30": P([("misc", "delete_pairing", {}), WCOPY, EMITALL, RECALC, EM(("memory",)), MAPARGS, ("fields", "struct_copy_pairing", {}), CONSTEXPR, TT_BOTH, ("misc", "additions", {}), ("mutators", "swap_flows", {}), ("mutators", "who_may_call", {}), FRESH],
